@@ -63,6 +63,11 @@ TABLE = {
  "C18": [("Proofs/StructBound", n) for n in ["pop_bound_sound", "pop_bound_bounded", "core_bounded_crun", "view_bounded_state_after", "sma_pop", "cyber_pop"]] +
         [("Proofs/StructSched", n) for n in ["sched_pop_bound", "sched_pop_bounded"]],
 }
+EXTRA9 = {
+ "C16": [("Proofs/FltP", n) for n in ["rsi_flat_f64", "myrsi_flat_f64", "myrsi_flat_f64_all"]] + [("Proofs/FltFlat", n) for n in ["rsi_sums_flat", "myrsi_sums_flat"]],
+ "C07": [("Proofs/FltP", "rsi_flat_f64")],
+ "C15": [("Proofs/FltP", "rsi_flat_f64")],
+}
 EXTRA8 = {
  "C09": [("Proofs/CompP", n) for n in ["standalone_fading", "wrap_linear", "fading_compose", "fading_compose_needs_ready", "view_fading_all_steps", "fading_chain2",
                                        "fading_chain_list", "fading_chain_outputs", "chain_answers"]],
@@ -113,7 +118,7 @@ EXTRA2 = {
 EXTRA = {
  "C07": [("Proofs/EhlLrsi", "lrsi_range"), ("Proofs/EhlEft", "eft_range_strong"), ("Proofs/EhlFlex", "trendflex_range"), ("Proofs/EhlFlex", "reflex_range"),
          ("Proofs/EhlPfe", "pfe_range_refuted"), ("Proofs/EhlPfe", "pfe_const_value"), ("Proofs/EhlPfe", "pfe_abs_le_one_iff"),
-         ("Proofs/FltP", "rsi_range_f64_refuted"), ("Proofs/FltP", "myrsi_range_f64_refuted"), ("Proofs/FltP", "cti_range_f64"), ("Proofs/FltP", "vsct_bound_f64_refuted")],
+         ("Proofs/FltP", "cti_range_f64"), ("Proofs/FltP", "vsct_bound_f64_refuted")],
  "C09": [("Proofs/StabEma", "ema_bibo"), ("Proofs/StabEma", "ema_fading_exact"), ("Proofs/StabEma", "ema_fading"), ("Proofs/StabEma", "ema_rho_range"), ("Proofs/StabEma", "ema_contraction"),
          ("Proofs/StabLag", "laguerre_bibo"), ("Proofs/StabLag", "laguerre_fading"), ("Proofs/StabLag", "laguerre_L0_geometric"), ("Proofs/StabSS", "ss_bibo"), ("Proofs/StabSS", "ss_fading"),
          ("Proofs/StabSS", "ss_homogeneous_exact"), ("Proofs/StabRoof", "roofing_pole_lt1"), ("Proofs/StabRoof", "roofing_bibo"), ("Proofs/StabRoof", "roofing_dc_decays"),
@@ -127,9 +132,8 @@ EXTRA = {
          ("Proofs/EhlPfe", "pfe_closed_form"), ("Proofs/EhlP", "eft_closed_form_echo"), ("Proofs/EhlP", "pfe_closed_form_echo")],
  "C12": [("Proofs/EhlFlex", "trendflex_scale_invariant"), ("Proofs/EhlFlex", "reflex_scale_invariant"), ("Proofs/EhlFlex", "trendflex_negate"), ("Proofs/EhlFlex", "reflex_negate"),
          ("Proofs/EhlLrsi", "lrsi_scale_invariant_cout"), ("Proofs/EhlEft", "eft_affine_invariant_cout")],
- "C15": [("Proofs/FltP", "rsi_nonfinite_f64_refuted")],
- "C16": [("Proofs/FltP", n) for n in ["rsi_flat_f64_refuted", "rsi_flat_f64_stuck", "rsi_flat_exact", "rsi_nonfinite_f64_refuted", "rsi_nonfinite_f64_stuck", "myrsi_flat_f64_refuted",
-                                      "myrsi_flat_f64_stuck", "myrsi_flat_exact", "vst_flat_f64_refuted", "vst_flat_f64_stuck", "vsct_flat_f64_refuted", "vsct_flat_f64_stuck"]] +
+ "C15": [],
+ "C16": [("Proofs/FltP", n) for n in ["rsi_flat_exact", "myrsi_flat_exact", "vst_flat_f64_refuted", "vst_flat_f64_stuck", "vsct_flat_f64_refuted", "vsct_flat_f64_stuck"]] +
         [("Proofs/FltErr", n) for n in ["sma_sum_drift", "sma_out_drift", "cumulative_drift", "sma_sum_drift_b64", "cumulative_drift_b64", "cumulative_drift_b64_gamma"]] +
         [("Proofs/FltCases", "flt_cases_green")],
 }
@@ -157,7 +161,7 @@ def header_of(path, name):
     return " ".join(m.group(1).split())
 
 def _merge_extra():
-    for ex in (EXTRA2, EXTRA3, EXTRA4, EXTRA5, EXTRA6, EXTRA7, EXTRA8):
+    for ex in (EXTRA2, EXTRA3, EXTRA4, EXTRA5, EXTRA6, EXTRA7, EXTRA8, EXTRA9):
         for k, v in ex.items():
             EXTRA[k] = EXTRA.get(k, []) + v
 
